@@ -132,3 +132,58 @@ pub fn delivery() {
     assert!(state(&t.m) == final_state, "after the last file the replica differs from the source");
     sym::reach(1);
 }
+
+/// An object referenced by a block may live in a pack that belongs to another, held-back block (payloads are
+/// de-duplicated against every indexed pack). The block must wait for that object as well.
+pub fn dedup_across_packs() {
+    let copy = |dst: &Ad, src: &Ad, f: &str| {
+        let bytes = src.read().unwrap().read_object(f, 0, 0).unwrap();
+        dst.write().unwrap().write_object(f, &bytes).unwrap();
+    };
+    // writer w: two commits; the second one stores element c = {"v": "q"}
+    let w = Rep::new();
+    w.m.update(doc_with(&["a"], &["x".to_string()], "t")).unwrap();
+    w.m.commit(None).unwrap();
+    let files0 = w.ad.read().unwrap().list_objects("").unwrap();
+    w.m.update(doc_with(&["a", "c"], &["x".to_string(), "q".to_string()], "t")).unwrap();
+    w.m.commit(None).unwrap();
+    let files1: Vec<String> = w.ad.read().unwrap().list_objects("").unwrap().into_iter().filter(|f| !files0.contains(f)).collect();
+    // replica x holds only the second commit of w (held back: its parent is missing) and commits its own origin
+    // block that contains an element with the same content as c
+    let mut x = Rep::new();
+    for f in &files1 {
+        copy(&x.ad, &w.ad, f);
+    }
+    x.m.refresh().expect("refresh x");
+    assert!(x.m.get_all_objects().is_empty(), "a block without its parent took effect");
+    let before = x.ad.read().unwrap().list_objects("").unwrap();
+    x.m.update(doc_with(&["k", "c"], &["n".to_string(), "q".to_string()], "u")).unwrap();
+    x.m.commit(None).unwrap().expect("x commit");
+    let sx = state(&x.m);
+    let files2: Vec<String> = x.ad.read().unwrap().list_objects("").unwrap().into_iter().filter(|f| !before.contains(f)).collect();
+    // replica z receives x's commit only: it is complete only if every referenced object is readable
+    let mut z = Rep::new();
+    for f in &files2 {
+        copy(&z.ad, &x.ad, f);
+        z.m.refresh().expect("refresh z");
+        let st = state(&z.m);
+        assert!(st == state(&z.reopen()), "incremental refresh differs from reload");
+        for id in z.m.get_all_objects() {
+            assert!(z.m.get_value(&id, None).is_ok(), "a visible object has no readable value (block applied without its objects)");
+        }
+    }
+    // then the pack of the held-back block arrives: now everything x's block needs is present
+    for f in files1.iter().filter(|f| f.ends_with(".pack")) {
+        copy(&z.ad, &w.ad, f);
+    }
+    z.m.refresh().expect("refresh z");
+    assert!(same_state(&z.reopen(), &z.m), "incremental refresh differs from reload after the missing pack arrived");
+    for id in z.m.get_all_objects() {
+        assert!(z.m.get_value(&id, None).is_ok(), "a visible object has no readable value");
+    }
+    if z.m.get_all_objects().len() > 0 {
+        assert!(doc_text(&z.m) == doc_text(&x.m), "the completed block shows a different document");
+    }
+    let _ = sx;
+    sym::reach(1);
+}
